@@ -1,10 +1,18 @@
 /-! The stall / wake-up protocol between ingest (`apply_manifest_ingest`: wait on `stall` while
-    level 0 is over its threshold; after installing, `compact.notify_all()`) and the compaction
-    threads (`compaction_thread`: wait on `compact` while `next_compaction()` is `None`; after
-    applying, `stall.notify_all()` — and *not* `compact.notify_all()`), all under the `compaction`
-    mutex.  Level 0 is abstracted to its file count; `stallAt` is the write-stall threshold,
-    `workAt` the count from which the selector returns a compaction; a compaction in flight
-    conflicts with any other (the overlap rule of `may_choose_compaction` on level 0). -/
+    `should_stall_ingest`; after installing, `compact.notify_all()`) and the compaction threads
+    (`compaction_thread`: wait on `compact` while `next_compaction()` is `None`; after applying,
+    `stall.notify_all()` — and *not* `compact.notify_all()`), all under the `compaction` mutex.
+
+    The protocol reads the tree through two functions only.  `should_stall_ingest` is a function
+    of level 0 (file count and bytes against the two write-stall thresholds), which the state
+    carries.  `next_compaction().is_some()` depends on the whole tree and on the compactions in
+    flight: trivial moves and compactions below level 0 are offered on an empty level 0, two
+    compactions that do not overlap run side by side, and a compaction that conflicts with one in
+    flight is withheld.  The model therefore takes the selector's answer from the event (it is an
+    observation of the run) and states what the protocol needs of it as a predicate on runs
+    (`selOK`, the model's `Sel`): the selector does not answer "nothing" while ingest is stalled
+    and nothing is in flight.  `quiet` is a ghost: the selector has answered "nothing" on the
+    present tree with nothing in flight. -/
 namespace Blue.Stall
 
 inductive TState where
@@ -14,11 +22,17 @@ inductive TState where
 deriving DecidableEq, Repr
 
 structure St where
+  /-- `l0_write_stall_threshold_files` -/
   stallAt : Nat
-  workAt : Nat
+  /-- `l0_write_stall_threshold_bytes` -/
+  stallBytes : Nat
+  /-- files in level 0 -/
   l0 : Nat
+  /-- bytes in level 0 -/
+  l0b : Nat
   ingesters : List TState
   compactors : List TState
+  quiet : Bool := false
   /-- `false` models the mutant that drops `compact.notify_all()` from ingest -/
   ingestNotifies : Bool := true
 deriving DecidableEq, Repr
@@ -27,42 +41,76 @@ def wakeAll (l : List TState) : List TState := l.map (fun t => if t = .waiting t
 
 def setAt (l : List TState) (i : Nat) (t : TState) : List TState := l.set i t
 
-/-- `next_compaction()` returns something -/
-def work (s : St) : Bool :=
-  decide (s.l0 ≥ s.workAt) && decide (0 < s.l0) && s.compactors.all (· != .inflight)
+/-- `should_stall_ingest()` -/
+def stalled (s : St) : Bool := decide (s.l0 ≥ s.stallAt) || decide (s.l0b ≥ s.stallBytes)
+
+/-- no compaction is in flight (`ongoing` is empty) -/
+def idle (s : St) : Bool := s.compactors.all (· != .inflight)
 
 inductive Ev where
-  /-- ingester `i` runs its critical section -/
-  | ingest (i : Nat)
-  /-- compactor `i` runs the selection critical section -/
-  | select (i : Nat)
-  /-- compactor `i` applies its compaction, which removes `c ≥ 1` files from level 0 -/
-  | finish (i c : Nat)
+  /-- ingester `i` runs its critical section with a file of `b` bytes -/
+  | ingest (i b : Nat)
+  /-- compactor `i` runs the selection critical section; `a`: `next_compaction()` was `Some` -/
+  | select (i : Nat) (a : Bool)
+  /-- compactor `i` applies its compaction, which takes `c` files and `b` bytes out of level 0
+      (`c = 0`: a compaction or move below level 0) -/
+  | finish (i c b : Nat)
+  /-- a spurious wake-up of ingester / compactor `i` (`Condvar::wait` may return unprompted): the
+      thread goes back to its check -/
+  | spurI (i : Nat)
+  | spurC (i : Nat)
 deriving DecidableEq, Repr
 
 def step (s : St) : Ev → St
-  | .ingest i =>
+  | .ingest i b =>
     match s.ingesters[i]? with
     | some .running =>
-      if s.l0 ≥ s.stallAt then { s with ingesters := setAt s.ingesters i .waiting }
-      else { s with l0 := s.l0 + 1,
+      if stalled s then { s with ingesters := setAt s.ingesters i .waiting }
+      else { s with l0 := s.l0 + 1, l0b := s.l0b + b, quiet := false,
                     compactors := if s.ingestNotifies then wakeAll s.compactors else s.compactors }
     | _ => s
-  | .select i =>
+  | .select i a =>
     match s.compactors[i]? with
     | some .running =>
-      if work s then { s with compactors := setAt s.compactors i .inflight }
-      else { s with compactors := setAt s.compactors i .waiting }
+      if a then { s with compactors := setAt s.compactors i .inflight }
+      else { s with compactors := setAt s.compactors i .waiting, quiet := s.quiet || idle s }
     | _ => s
-  | .finish i c =>
+  | .finish i c b =>
     match s.compactors[i]? with
     | some .inflight =>
-      { s with l0 := s.l0 - (min (max c 1) s.l0), ingesters := wakeAll s.ingesters,
-               compactors := setAt s.compactors i .running }
+      { s with l0 := s.l0 - min c s.l0, l0b := s.l0b - min b s.l0b, quiet := false,
+               ingesters := wakeAll s.ingesters, compactors := setAt s.compactors i .running }
     | _ => s
+  | .spurI i =>
+    match s.ingesters[i]? with
+    | some .waiting => { s with ingesters := setAt s.ingesters i .running }
+    | _ => s
+  | .spurC i =>
+    match s.compactors[i]? with
+    | some .waiting => { s with compactors := setAt s.compactors i .running }
+    | _ => s
+
+/-- the model's `Sel`, as a condition on one event: the selector does not answer "nothing" while
+    ingest is stalled and nothing is in flight -/
+def selOK (s : St) : Ev → Bool
+  | .select _ false => !(stalled s && idle s)
+  | _ => true
+
+/-- `Sel` along a run -/
+def runSel : St → List Ev → Bool
+  | _, [] => true
+  | s, ev :: t => selOK s ev && runSel (step s ev) t
 
 /-- everybody is asleep and somebody wants to write -/
 def deadlocked (s : St) : Bool :=
   s.ingesters.all (· == .waiting) && s.compactors.all (· == .waiting) && !s.ingesters.isEmpty
+
+/-- the invariant of `Blue.Stall.Inv`, executable (the trace validator evaluates it after every
+    event of a recorded run) -/
+def invB (s : St) : Bool :=
+  s.ingestNotifies && !s.compactors.isEmpty
+    && (s.ingesters.all (· != .waiting) || stalled s)
+    && (s.compactors.any (· != .waiting) || s.quiet)
+    && (!s.quiet || !stalled s)
 
 end Blue.Stall
